@@ -134,6 +134,12 @@ class Kinds:
                     return 'ACC'
                 if q in ('numpy.array', 'numpy.asarray', 'numpy.copy') and t[2] and self.kind(t[2][0], f) == 'ACC':
                     return 'ACC'
+            # the largest / smallest entry of a row is an entry: a test on it is a liveness test of the whole row
+            if q in ('numpy.max', 'numpy.min', 'numpy.amax', 'numpy.amin', 'builtins.max', 'builtins.min') and len(t[2]) == 1 \
+                    and not t[3] and self.kind(t[2][0], f) in ('ROW', 'COL'):
+                return 'ENTRY'
+            if t[1][0] == 'attr' and t[1][2] in ('max', 'min') and not t[2] and self.kind(t[1][1], f) in ('ROW', 'COL'):
+                return 'ENTRY'
             if t[1][0] == 'attr' and t[1][2] in ('copy', 'view') and self.kind(t[1][1], f) == 'ACC':
                 return 'ACC'
             if t[1][0] == 'attr' and t[1][2] in ('tolist', 'copy') and self.kind(t[1][1], f) in ('ROW', 'COL'):
